@@ -394,6 +394,19 @@ class C20(DiffProperty):
                     tok, q = self.gen_sources(rng, ftype, tier)[2]
                     t, qq = self.src_item(tok, q)
                     add("c", kind, [(["set", "a", hx(nm), t], qq), (["set", "a", hx(nm), "R"], [])])
+        # 1b. state-dependent pairs: two assignments to the same property (through any of its names) in a row, then read back:
+        #     the second value must win whatever state the first one left (e.g. the logarithmic flag of an axis)
+        for kind in KINDS:
+            for listed, names, ftype in PROPS[kind]:
+                srcs = self.gen_sources(rng, ftype, tier)
+                special = [x for x in srcs if x[0] in ("R", "TN") or (ftype == "intv" and (x[0] == "Vs:" + hx("log") or x[0] in ["T" + hx(t) for t in INTV_TEXTS]))]
+                special += rng.sample(srcs, min(3, len(srcs)))
+                other = rng.sample(srcs, min(6 if quick else 16, len(srcs)))
+                for (a1, a2) in [(x, y) for x in special for y in other] + [(y, x) for x in special for y in other]:
+                    t1, q1 = self.src_item(*a1)
+                    t2, q2 = self.src_item(*a2)
+                    add("x" if rng.random() < 0.2 else "c", kind,
+                        [(["set", "a", hx(rng.choice(names)), t1], q1), (["set", "a", hx(rng.choice(names)), t2], q2), (["get", "a", hx(listed)], [])])
         # 2. lookup by every prefix (unique or not), case variants, over-long names
         for kind in KINDS:
             pre = self.prefill(kind)
